@@ -72,6 +72,7 @@ Proof.
       rewrite (ctr_upd2 _ _ _ _ (fun st => set_rd st (c :: c_rd st))) by (intro; reflexivity). rewrite ctr_upd_pc. lia.
     + rewrite (ctr_upd2 _ _ _ _ (fun st => set_rd st (remove_conn c (c_rd st)))) by (intro; reflexivity). rewrite ctr_upd_pc. lia.
     + rewrite (ctr_upd2 _ _ _ _ (send_if_match (r_buf s) e t sub fs)) by (intro; apply ctl_send_if_match). rewrite ctr_upd_pc. lia.
+    + lia.
   - destruct (ctl_fields _ _ (trans_ctl_other s l s' x T Hl)) as (_ & _ & _ & E). rewrite E. lia.
 Qed.
 
@@ -190,6 +191,9 @@ Proof.
         -- rewrite (pc_upd2 _ _ _ _ (send_if_match (r_buf s) e t sub fs)) in Hpc by (intro; apply ctl_send_if_match).
            rewrite upd_same in Hpc. discriminate.
         -- split; reflexivity.
+        -- congruence.
+        -- rewrite (inv_cancel s I c) in Hd by assumption. discriminate.
+        -- discriminate.
       * destruct (ctl_fields _ _ (trans_ctl_other s l s' x T Hl)) as (Epc & Ed & _).
         rewrite Epc in Hpc. rewrite Ed in Hd. destruct (d_over s D x Hd Hpc) as [Q0 H0].
         (* the data part can only have changed by take/deliver, impossible on an empty queue *)
